@@ -8,7 +8,7 @@ use crate::framework::*;
 use crate::refchess::{Kind, Pos};
 use serde_json::json;
 
-pub const RULE: &str = "histories: root (repository FEN / constructive theme / random placement) followed by up to N ops chosen from {make a reference-legal move (weighted toward castling, e.p., promotions, rook-square captures), null move where a search may play it, take back}, then fully unwound; after every op the engine position is compared field by field with the reference successor, the three board views are cross-checked, and after every take-back the complete snapshot taken before the matching make must be restored. A second part plays every legal move of every position of a walk once (make, compare, undo, compare). Non-trivial = history with castling, e.p. capture, promotion, capture on a rook home square with the right present, or a null move nested under >= 2 moves; distinct by (root, op list).";
+pub const RULE: &str = "histories: root (repository FEN / constructive theme / random placement) followed by up to N ops chosen from {make a reference-legal move (weighted toward castling, e.p., promotions, rook-square captures), null move where a search may play it, take back}, then fully unwound; after every op the engine position is compared field by field with the reference successor, the three board views are cross-checked, and after every take-back the complete snapshot taken before the matching make must be restored. A 'long_histories' part nests 1100-1500 plies deep (beyond 1024) before unwinding. A second part plays every legal move of every position of a walk once (make, compare, undo, compare). Non-trivial = history with castling, e.p. capture, promotion, capture on a rook home square with the right present, or a null move nested under >= 2 moves; distinct by (root, op list).";
 
 #[derive(Clone, PartialEq, Debug)]
 pub struct Snapshot {
@@ -231,6 +231,19 @@ pub fn run(run: &mut Run) -> &'static str {
                 st.nontrivial_sample(json!({"root": root, "ops": ops}));
             } else {
                 st.sample(json!({"root": root, "ops": ops}));
+            }
+        }
+        Ok(())
+    });
+    // very long histories (nesting beyond 1024 plies)
+    let cases = run.tier.pick(320, 6_000);
+    run.proptest_part("long_histories", RULE, hist_case(4..120), cases, |case: &HistCase, st: &mut Stats| {
+        let mut obs = Obs { snaps: vec![] };
+        if let Some((feat, root, ops)) = interpret(case, &Config::long(), st, &mut obs)? {
+            st.class_n("max_nesting_depth_reached_1025_or_more", u64::from(feat.max_depth >= 1025));
+            if feat.max_depth >= 1025 {
+                st.nontrivial(&(root.clone(), ops.len(), crate::framework::hash_of(&ops)));
+                st.nontrivial_sample(json!({"root": root, "ops": ops.len(), "max_depth": feat.max_depth}));
             }
         }
         Ok(())
